@@ -615,14 +615,14 @@ pub fn c11(run: &mut Run) {
 // =======================================================================================
 // C12
 // =======================================================================================
-fn c12_char(run: &mut Run, l: usize, c: char) {
+fn c12_char(run: &mut Run, l: usize, f: Form, c: char) {
     let levels = [("unshifted", M_NUMLOCK), ("shift", M_NUMLOCK | M_LSHIFT), ("AltGr", M_NUMLOCK | M_RALT)];
     let mut witness = None;
     let mut only_altgr_or_nonus = true;
     for &k in ALL_KEYS {
         for (ln, bits) in levels {
             run.eval(1);
-            if out(l, Form::Bare, k, bits, HandleControl::Ignore) == Ok(DecodedKey::Unicode(c)) {
+            if out(l, f, k, bits, HandleControl::Ignore) == Ok(DecodedKey::Unicode(c)) {
                 if witness.is_none() {
                     witness = Some((k, ln));
                 }
@@ -633,31 +633,33 @@ fn c12_char(run: &mut Run, l: usize, c: char) {
         }
     }
     if only_altgr_or_nonus {
-        run.nontrivial_fp(fp(&("c12", l, c)));
+        run.nontrivial_fp(fp(&("c12", l, f as u8, c)));
     }
     match witness {
         Some((k, ln)) => {
             if (c as usize + l * 7) % 97 == 0 || (only_altgr_or_nonus && (c as usize + l) % 11 == 0) {
-                run.sample(|| json!({"layout":LAYOUT_NAMES[l],"char":c.to_string(),"witness_key":key_name(k),"level":ln}));
+                run.sample(|| json!({"layout":LAYOUT_NAMES[l],"selected_as":form_name(f),"char":c.to_string(),"witness_key":key_name(k),"level":ln}));
             }
         }
         None => run.violation(Violation {
-            sig: format!("C12:untypeable:{}:U+{:04X}", LAYOUT_NAMES[l], c as u32),
-            what: format!("{}: no key types the printable ASCII character '{}' (U+{:04X}) at its unshifted, shifted or AltGr level", LAYOUT_NAMES[l], c, c as u32),
-            case: json!({"kind":"typeable","layout":LAYOUT_NAMES[l],"char":c as u32}),
+            sig: format!("C12:untypeable:{}{}:U+{:04X}", LAYOUT_NAMES[l], if f == Form::Bare { String::new() } else { format!("({})", form_name(f)) }, c as u32),
+            what: format!("{}{}: no key types the printable ASCII character '{}' (U+{:04X}) at its unshifted, shifted or AltGr level", LAYOUT_NAMES[l], if f == Form::Bare { String::new() } else { format!(" selected through {}", form_name(f)) }, c, c as u32),
+            case: json!({"kind":"typeable","layout":LAYOUT_NAMES[l],"form":form_name(f),"char":c as u32}),
         }),
     }
 }
 
 pub fn c12(run: &mut Run) {
-    run.rule = "Exhaustive: 10 layouts x the 95 printable ASCII characters; for each, an existence search over all 124 keys x {no modifier, left Shift, right Alt} (NumLock on, mapping disabled); the witness key is recorded. Non-trivial = character whose witnesses are all at the AltGr level or on keys where the US layout types something else; distinct = (layout, character).".into();
+    run.rule = "Exhaustive: 10 layouts (each as the bare type, selected as AnyLayout and as &AnyLayout) x the 95 printable ASCII characters; for each, an existence search over all 124 keys x {no modifier, left Shift, right Alt} (NumLock on, mapping disabled); the witness key is recorded. Non-trivial = character whose witnesses are all at the AltGr level or on keys where the US layout types something else; distinct = (layout, form, character).".into();
     run.assumptions = vec!["searching with NumLock on (the power-on state) and mode Ignore; the three plain levels are what the property names".into()];
     for l in 0..N_LAYOUTS {
-        for c in 0x20u8..0x7F {
-            c12_char(run, l, c as char);
+        for f in FORMS {
+            for c in 0x20u8..0x7F {
+                c12_char(run, l, f, c as char);
+            }
         }
     }
-    run.part("cells", json!({"layout_chars": N_LAYOUTS * 95}));
+    run.part("cells", json!({"layout_chars": N_LAYOUTS * 95, "object_forms": 3}));
     run.exhaustive = true;
 }
 
@@ -1311,7 +1313,8 @@ pub fn replay(run: &mut Run, case: &Value) -> bool {
         "typeable" => {
             let l = layout_by_name(case["layout"].as_str().unwrap_or("")).unwrap_or(0);
             if let Some(c) = char::from_u32(case["char"].as_u64().unwrap_or(0x20) as u32) {
-                c12_char(run, l, c);
+                let f = form_by_name(case["form"].as_str().unwrap_or("bare")).unwrap_or(Form::Bare);
+                c12_char(run, l, f, c);
             }
             true
         }
